@@ -60,5 +60,5 @@ def main(tier, seed):
     rep.require(not (not c["extra.records"]), "EAV_EXTRA build produced no records")
     return rep.finish(c["records"], rep.distinct_count,
                       "C01 address corpus; every result record of eav_is_email and is_<rfc>_email in 4 modes x tld off/on, in the "
-                      "default and the EAV_EXTRA build; distinct = distinct addresses per build",
+                      "default, the EAV_EXTRA and the EAV_EXTRA+NDEBUG build, EAV_EXTRA builds of the two foreign back ends; addresses with a 2^31-byte local part (-O2 build); distinct = distinct addresses per build",
                       {"builds": cx.builds_info()})
